@@ -42,11 +42,13 @@ impl Stream for EnvStream {
     type Item = Result<Bytes, BoxError>;
     fn poll_next(mut self: Pin<&mut Self>, task: &mut Context<'_>) -> Poll<Option<Self::Item>> {
         let cx = unsafe { &mut *self.cx };
-        if self.errored {
+        let resume = RESUME.with(std::cell::Cell::get);
+        if self.errored && !resume {
             return Poll::Ready(None);
         }
-        // deviations are offered at every poll, also at the end of the data
-        match cx.deviate(4) {
+        // deviations are offered at every poll, also at the end of the data; in resume mode the
+        // transport reports one recoverable error and then goes on delivering the remaining bytes
+        match cx.deviate(if self.errored { 3 } else { 4 }) {
             1 => {
                 task.waker().wake_by_ref();
                 self.log.push(usize::MAX);
@@ -106,7 +108,8 @@ where
             Poll::Ready(Some(v)) => {
                 let stop = v.is_err();
                 out.push(v);
-                if stop {
+                // resume mode: a consumer that keeps reading after the first error item (stops at the second)
+                if stop && (!RESUME.with(std::cell::Cell::get) || out.iter().filter(|x| x.is_err()).count() >= 2) {
                     return Ok(out);
                 }
             }
@@ -173,6 +176,25 @@ fn reference_ld(buf: &[u8]) -> Vec<Item> {
 /// the error position (Single mode, trailing data); otherwise any prefix of them is accepted
 /// (Batch / length-delimited discard the batch in which a record failed to decode).
 fn judge(got: &[Item], reference: &[Item], transport_err: bool, decode_err_strict: bool) -> Result<(), String> {
+    if RESUME.with(std::cell::Cell::get) && transport_err {
+        // the consumer read on after a recoverable transport error: whatever records come out (before
+        // or after the error items) must still be the records encoded in the bytes, in order, none
+        // duplicated or altered; completeness is not demanded, a panic is reported by the explorer
+        // (bytes that hold an undecodable or partial record: what a consumer sees after reading past
+        // that second kind of error is not specified, only the absence of a panic is checked there)
+        if reference.last() == Some(&Item::Err) {
+            return Ok(());
+        }
+        let ref_recs: Vec<&Item> = reference.iter().filter(|i| matches!(i, Item::Rec(_))).collect();
+        let got_recs: Vec<&Item> = got.iter().filter(|i| matches!(i, Item::Rec(_))).collect();
+        if got_recs.len() > ref_recs.len() || got_recs.iter().zip(&ref_recs).any(|(a, b)| a != b) {
+            return Err(format!("reading on after a transport error: records {got:?} are not a prefix of the records encoded in the bytes {reference:?}"));
+        }
+        if !got.contains(&Item::Err) {
+            return Err(format!("a transport error was swallowed: output {got:?} has no error item"));
+        }
+        return Ok(());
+    }
     let ref_recs: Vec<&Item> = reference.iter().filter(|i| matches!(i, Item::Rec(_))).collect();
     let ref_err = reference.last() == Some(&Item::Err);
     let got_recs: Vec<&Item> = got.iter().take_while(|i| matches!(i, Item::Rec(_))).collect();
@@ -263,6 +285,7 @@ fn run_fixed<T: Serializable>(parser: Parser, buf: &[u8], cx: &mut Choices, max_
 }
 
 thread_local! {
+    static RESUME: std::cell::Cell<bool> = const { std::cell::Cell::new(false) };
     static INJECTED: std::cell::Cell<bool> = const { std::cell::Cell::new(false) };
 }
 
@@ -336,10 +359,13 @@ pub struct Case {
     pub max_chunk: usize,
     /// the environment sits behind `BodyStream` (as every real request body does)
     pub via_body: bool,
+    /// the transport error is recoverable (the stream goes on) and the consumer keeps reading after it
+    pub resume: bool,
 }
 
 pub fn run_case(c: &Case, cx: &mut Choices) -> Result<(), String> {
     INJECTED.with(|f| f.set(false));
+    RESUME.with(|f| f.set(c.resume));
     match (c.parser, c.ty) {
         (Parser::LengthDelimited, _) => run_ld(&c.bytes, cx, c.max_chunk, c.via_body),
         (Parser::Buffered(sz), _) => run_buffered(sz, &c.bytes, cx, c.max_chunk, c.via_body),
@@ -434,7 +460,7 @@ fn run() {
         let ty: &'static str = match v["ty"].as_str().unwrap() {
             "BA8" => "BA8", "Fp31" => "Fp31", "Gf9Bit" => "Gf9Bit", "BA20" => "BA20", "Fp32BitPrime" => "Fp32BitPrime", _ => "BA64",
         };
-        let c = Case { parser, ty, bytes: v["bytes"].as_array().unwrap().iter().map(|b| b.as_u64().unwrap() as u8).collect(), bound: 9, max_chunk: v["max_chunk"].as_u64().unwrap_or(64) as usize, via_body: v["via_body"].as_bool().unwrap_or(false) };
+        let c = Case { parser, ty, bytes: v["bytes"].as_array().unwrap().iter().map(|b| b.as_u64().unwrap() as u8).collect(), bound: 9, max_chunk: v["max_chunk"].as_u64().unwrap_or(64) as usize, via_body: v["via_body"].as_bool().unwrap_or(false), resume: v["resume"].as_bool().unwrap_or(false) };
         let trace: Vec<u32> = rep["choices"].as_array().unwrap().iter().map(|x| x.as_u64().unwrap() as u32).collect();
         r.add("states", 1);
         r.add("transitions", trace.len() as u64);
@@ -463,14 +489,14 @@ fn run() {
                 let bound = if thorough { bound + u32::from(n <= 10) } else { bound };
                 // long buffers: restrict chunk length so that the tree stays tractable
                 let max_chunk = if n > 14 { 9 } else { 64 };
-                cases.push(Case { parser, ty, bytes: bytes.clone(), bound, max_chunk, via_body: false });
+                cases.push(Case { parser, ty, bytes: bytes.clone(), bound, max_chunk, via_body: false, resume: false });
             }
         }
     }
     for bytes in ld_streams(max_bytes) {
         let n = bytes.len();
         let bound = if n <= 6 { 2 } else if n <= 10 { 1 } else { 0 };
-        cases.push(Case { parser: Parser::LengthDelimited, ty: "raw", bytes, bound, max_chunk: 64, via_body: false });
+        cases.push(Case { parser: Parser::LengthDelimited, ty: "raw", bytes, bound, max_chunk: 64, via_body: false, resume: false });
     }
     // a 300-byte record between two small ones: cuts restricted to <= 9 bytes would never skip the
     // big record, so use chunk lengths up to 310 but bound 0 and only cuts near the boundaries
@@ -478,12 +504,16 @@ fn run() {
         for sz in [1usize, 2, 3, 5, 8] {
             let bytes: Vec<u8> = (0..n).map(|i| i as u8 + 1).collect();
             let bound = if n <= 8 { 1 } else { 0 };
-            cases.push(Case { parser: Parser::Buffered(sz), ty: "bytes", bytes, bound, max_chunk: 64, via_body: false });
+            cases.push(Case { parser: Parser::Buffered(sz), ty: "bytes", bytes, bound, max_chunk: 64, via_body: false, resume: false });
         }
     }
     // the same, behind the body wrapper every real request body goes through (short buffers)
     let behind_body: Vec<Case> = cases.iter().filter(|c| c.bytes.len() <= if thorough { 10 } else { 8 }).map(|c| Case { via_body: true, bound: c.bound.min(1), ..c.clone() }).collect();
     cases.extend(behind_body);
+    // resume mode (record parsers only; `Buffered` documents "nothing after an error"): the error is one more
+    // deviation, so the bound is raised by one where the tree allows it
+    let resumed: Vec<Case> = cases.iter().filter(|c| !matches!(c.parser, Parser::Buffered(_)) && c.bytes.len() <= if thorough { 10 } else { 8 }).map(|c| Case { resume: true, bound: c.bound.max(1), ..c.clone() }).collect();
+    cases.extend(resumed);
     r.flag("exhaustive", true);
     let cap = 20_000_000;
     let results = common::par_map(cases.len(), common::ncpu(), |i| explore::explore(cases[i].bound, cap, |cx| run_case(&cases[i], cx)));
@@ -497,6 +527,9 @@ fn run() {
         if c.via_body {
             r.inc("streams_behind_body_wrapper");
         }
+        if c.resume {
+            r.inc("streams_read_on_after_error");
+        }
         r.set("parsers", format!("{:?}:{}", c.parser, c.ty).replace(|ch: char| ch.is_ascii_digit() && matches!(c.parser, Parser::Buffered(_)), "N"));
         if c.bytes.len() == 6 && c.ty == "Gf9Bit" && shown < 2 {
             shown += 1;
@@ -508,7 +541,7 @@ fn run() {
         if let Some((trace, e)) = st.failure {
             let kind = if e.contains("panic") { "panic" } else if e.contains("lost") || e.contains("prefix") { "records" } else { "error-reporting" };
             let p = match c.parser { Parser::Buffered(n) => format!("Buffered{n}"), p => format!("{p:?}") };
-            r.violation(&format!("parser:{kind}:{p}:{}", c.ty), &e, json!({"part":"parsers","case":{"parser":p,"ty":c.ty,"bytes":c.bytes,"max_chunk":c.max_chunk,"via_body":c.via_body},"choices":trace}));
+            r.violation(&format!("parser:{kind}:{p}:{}", c.ty), &e, json!({"part":"parsers","case":{"parser":p,"ty":c.ty,"bytes":c.bytes,"max_chunk":c.max_chunk,"via_body":c.via_body,"resume":c.resume},"choices":trace}));
         } else if !st.complete {
             r.flag("exhaustive", false);
             r.note(format!("{:?}/{} {} bytes: cap hit", c.parser, c.ty, c.bytes.len()));
